@@ -21,8 +21,10 @@ def gen(rng, tier):
     n = {"quick": 90, "thorough": 900, "search": 150}[tier]
     cases = []
     for i in range(n):
-        k = i % 3
-        if k == 0:
+        k = i % 4
+        if k == 3:
+            cases.append(queues.thief_starvation(rng))
+        elif k == 0:
             cases.append(queues.starvation(rng))
         elif k == 1:
             cases.append(queues.fill_steal_fill(rng))
